@@ -16,6 +16,9 @@ def shape(j):
     return "%s(%s)" % (j["op"], ",".join(c["op"] for c in j["a"]))
 
 
+PLURAL = [0]
+
+
 def one_event(ck, eid, env, f, fj, asg, present, completion, want_sat, reuse=False):
     model = EagerModel({s: v for (s, v, _), p in zip(asg, present) if p}, env)
     ev = {"id": eid, "kind": "getvalue", "f": fj,
@@ -37,7 +40,18 @@ def one_event(ck, eid, env, f, fj, asg, present, completion, want_sat, reuse=Fal
     try:
         with warnings.catch_warnings():
             warnings.simplefilter("ignore")
-            r = model.get_value(f, model_completion=completion)
+            # the plural entry points are other spellings of the same question
+            way = PLURAL[0] % 4
+            PLURAL[0] += 1
+            if way == 1:
+                r = model.get_values([f], model_completion=completion)[f]
+            elif way == 2:
+                pv = model.get_py_values([f], model_completion=completion)[f]
+                r = model.get_value(f, model_completion=completion)
+                if r.constant_value() != pv:
+                    raise RuntimeError("get_py_values disagrees with get_value")
+            else:
+                r = model.get_value(f, model_completion=completion)
         ev["res"] = "value"
         ev["out"] = term_io.export(r)
         ev["rty"] = term_io.export_type(r.get_type())
